@@ -6,7 +6,7 @@ PY = "/venv/bin/python"
 
 # id: (technique, level text, level note, design_ref)
 CHECKS = {
- "C07": ("bounded exhaustive exploration of the real reader over all byte strings / token sequences up to a length bound x reader configurations; plus every program of <= 3 consumption operations (read / next / for) and streams of frames with equal header and checksum bytes; invariant oracle on every execution",
+ "C07": ("bounded exhaustive exploration of the real reader over all byte strings / token sequences up to a length bound x reader configurations; plus every program of <= 3 consumption operations (read / next / for) and streams of frames with equal header and checksum bytes, and a resync ring (all sequences of <= 4 of stray preamble bytes, rejected / good / first-byte-missing frames); invariant oracle on every execution",
          "No execution of UBXReader.read() over any byte string of the stated alphabet and length bound or token sequence, under any of the enumerated reader configurations - and under every single short read of the stream (one deviation) - returns a raw item that is not an ordered, non-overlapping, preamble-led slice of the input or reports end-of-stream with unread data. Exhaustive within the bound, not a proof beyond it.",
          "io.BytesIO as the stream; pynmeagps.NMEA_HDR as the list of NMEA preambles; strings longer than the bound and bytes outside the 8-symbol alphabet are reached only through token sequences.",
          "DESIGN.md §5 C07"),
